@@ -381,7 +381,13 @@ func (ls *LState) LoadFile(path string) (*LFunction, error) {
 			return nil, newApiErrorE(ApiErrorFile, err)
 		}
 	}
+	return ls.loadFile(file, path)
+}
 
+// loadFile loads the chunk in an open file as luaL_loadfile does: a first line that starts with '#'
+// is skipped (its newline is kept, so the line numbers of the chunk stay right). Shared by
+// LoadFile, dofile and loadfile.
+func (ls *LState) loadFile(file io.Reader, name string) (*LFunction, error) {
 	reader := bufio.NewReader(file)
 	// get the first character.
 	c, err := reader.ReadByte()
@@ -406,7 +412,7 @@ func (ls *LState) LoadFile(path string) (*LFunction, error) {
 		}
 	}
 
-	return ls.Load(reader, path)
+	return ls.Load(reader, name)
 }
 
 func (ls *LState) LoadString(source string) (*LFunction, error) {
